@@ -2097,3 +2097,425 @@ func rulePanicOverflow(p *Prog, r *Report, fns []*ssa.Function) {
 		}
 	}
 }
+
+// ---- LEAF.path (C09) ------------------------------------------------------------------------------------------------------------------
+
+// ruleLeafPath: in the leaf walker a separator is added to the path only together with the node name that follows it. The path
+// handed to the children and stored in a LeafNode is the incoming path, or incoming path (+ ".") + node — never a path that
+// ends in the separator (which is what remains when the name is dropped but the separator is not).
+func ruleLeafPath(p *Prog, r *Report, name string) {
+	const rule = "LEAF.path"
+	fn := p.Fn(name)
+	if fn == nil {
+		r.Anchor(rule, name)
+		return
+	}
+	// sinks: the string argument of self calls in the position of the first string parameter, and strings stored into a struct
+	pi := -1
+	for i, prm := range fn.Params {
+		if isStringType(prm.Type()) && pi < 0 {
+			pi = i
+		}
+	}
+	var sinks []ssa.Value
+	for _, c := range selfCalls(fn) {
+		if pi >= 0 && pi < len(c.Call.Args) {
+			sinks = append(sinks, c.Call.Args[pi])
+		}
+	}
+	eachInstr(fn, func(b *ssa.BasicBlock, in ssa.Instruction) {
+		if st, ok := in.(*ssa.Store); ok && isStringType(st.Val.Type()) {
+			if _, isField := st.Addr.(*ssa.FieldAddr); isField {
+				sinks = append(sinks, st.Val)
+			}
+		}
+	})
+	if len(sinks) == 0 {
+		r.Unknown(rule, name, "path never ends in a separator", p.Pos(fn.Pos()), "no use of the path (recursive call, leaf record) found")
+		return
+	}
+	bad := ""
+	seen := map[ssa.Value]bool{}
+	var walk func(v ssa.Value)
+	walk = func(v ssa.Value) {
+		if seen[v] {
+			return
+		}
+		seen[v] = true
+		switch x := v.(type) {
+		case *ssa.Phi:
+			for _, e := range x.Edges {
+				walk(e)
+			}
+		case *ssa.BinOp:
+			if x.Op == token.ADD {
+				if sv, ok := constString(x.Y); ok && (sv == "." || sv == "[") {
+					bad = p.Pos(x.Pos())
+				}
+			}
+		}
+	}
+	for _, sk := range sinks {
+		walk(sk)
+	}
+	if bad == "" {
+		r.OK(rule, name, "path never ends in a separator", p.Pos(fn.Pos()), fmt.Sprintf("%d uses of the path: the separator appended to it is always followed by a node name", len(sinks)))
+	} else {
+		r.Bad(rule, name, "path never ends in a separator", bad, "the path with the separator appended at "+bad+" can reach a child or a leaf record without a node name after it: with the no-attribute option the text key is dropped but its separator stays (\"doc.item.\")")
+	}
+}
+
+// ---- PARSE.verbatim (C07, C09) ---------------------------------------------------------------------------------------------------------
+
+// rulePathVerbatim: the key name of a parsed path segment is the text of the segment in front of the subscript, cut out by
+// splitting and slicing only. Any other string function on the way (trimming, case folding, replacing) makes two different keys
+// of a Map address the same entry, and a key with such characters unreachable.
+func rulePathVerbatim(p *Prog, r *Report, name string) {
+	const rule = "PARSE.verbatim"
+	fn := p.Fn(name)
+	if fn == nil {
+		r.Anchor(rule, name)
+		return
+	}
+	allowed := func(c *ssa.Call) bool {
+		if _, isB := c.Call.Value.(*ssa.Builtin); isB {
+			return true
+		}
+		return isCallTo(&c.Call, "strings.Split", "strings.SplitN", "strings.Index", "strings.IndexByte", "strings.LastIndex", "strings.LastIndexByte", "strings.Cut", "strings.IndexAny", "strings.Contains", "strings.HasSuffix", "strings.HasPrefix")
+	}
+	var check func(f *ssa.Function, v ssa.Value, depth int) string
+	check = func(f *ssa.Function, v ssa.Value, depth int) string {
+		for x := range backwardSlice(f, v) {
+			switch y := x.(type) {
+			case *ssa.Call:
+				if !allowed(y) && isStringType(y.Type()) {
+					return p.calleeName(&y.Call) + " at " + p.Pos(y.Pos())
+				}
+			case *ssa.Parameter:
+				if f != fn && depth < 2 {
+					for i, prm := range f.Params {
+						if prm != y {
+							continue
+						}
+						for _, site := range p.staticSites(f) {
+							if i < len(site.Call.Args) {
+								if why := check(site.Parent(), site.Call.Args[i], depth+1); why != "" {
+									return why
+								}
+							}
+						}
+					}
+				}
+			}
+		}
+		return ""
+	}
+	n := 0
+	for f := range p.Reach(fn) {
+		if !p.InModule(f) || len(f.Blocks) == 0 || (f != fn && p.Exported(f)) {
+			continue
+		}
+		ff := f
+		eachInstr(ff, func(b *ssa.BasicBlock, in ssa.Instruction) {
+			st, ok := in.(*ssa.Store)
+			if !ok || !isStringType(st.Val.Type()) {
+				return
+			}
+			fa, ok := st.Addr.(*ssa.FieldAddr)
+			if !ok {
+				return
+			}
+			n++
+			cons := fmt.Sprintf("field %s is the segment text as written", fieldName(fa.X.Type(), fa.Field))
+			if why := check(ff, st.Val, 0); why != "" {
+				r.Bad(rule, p.Name(ff), cons, p.Pos(st.Pos()), "the key name passes through "+why+" before it is stored: the name looked up is no longer the name written in the path")
+			} else {
+				r.OK(rule, p.Name(ff), cons, p.Pos(st.Pos()), "obtained from the segment by splitting / slicing only")
+			}
+		})
+	}
+	// a record built as a composite literal stores through the fields as well; nothing found means the parser changed shape
+	if n == 0 {
+		r.Unknown(rule, name, "key name stored", p.Pos(fn.Pos()), "no store of a string field of the segment record found")
+	}
+}
+
+// ---- ANYXML.nilonly (C03) ----------------------------------------------------------------------------------------------------------------
+
+// ruleAnyXmlNilOnly: AnyXml / AnyXmlIndent return a document without handing the value to an encoder only for the untyped nil
+// value (the empty root element). A wider test (zero values, typed nils decided by reflection) drops false, 0 and "" at the root.
+func ruleAnyXmlNilOnly(p *Prog, r *Report) {
+	const rule = "ANYXML.nilonly"
+	enc := p.Fn("mxj.marshalMapToXmlIndent")
+	for _, n := range []string{"mxj.AnyXml", "mxj.AnyXmlIndent"} {
+		fn := p.Fn(n)
+		if fn == nil || enc == nil {
+			r.Anchor(rule, n)
+			continue
+		}
+		encBlk := map[*ssa.BasicBlock]bool{}
+		eachInstr(fn, func(b *ssa.BasicBlock, in ssa.Instruction) {
+			c, ok := in.(*ssa.Call)
+			if !ok {
+				return
+			}
+			g := staticCallee(&c.Call)
+			if g == nil {
+				return
+			}
+			nm := p.Name(g)
+			if g == enc || nm == "mxj.Map.Xml" || nm == "mxj.Map.XmlIndent" || strings.HasPrefix(extName(g), "encoding/xml.Marshal") || strings.HasPrefix(extName(g), "encoding/json.") ||
+				(p.InModule(g) && !p.Exported(g) && p.alwaysCalls(g, enc, 0)) {
+				encBlk[b] = true
+			}
+		})
+		// the dispatch on the value's type is not a shortcut: paths that pass a type test of v handle v in their own way (an empty
+		// list becomes an empty root by writing the two tags)
+		eachInstr(fn, func(b *ssa.BasicBlock, in ssa.Instruction) {
+			if ta, ok := in.(*ssa.TypeAssert); ok && ta.X == ssa.Value(fn.Params[0]) {
+				encBlk[b] = true
+			}
+		})
+		bad := ""
+		nShort := 0
+		seen := map[*ssa.BasicBlock]bool{fn.Blocks[0]: true}
+		work := []*ssa.BasicBlock{fn.Blocks[0]}
+		for len(work) > 0 {
+			b := work[len(work)-1]
+			work = work[:len(work)-1]
+			if encBlk[b] {
+				continue
+			}
+			if ret, ok := b.Instrs[len(b.Instrs)-1].(*ssa.Return); ok {
+				if len(ret.Results) > 0 && !isNilConst(ret.Results[0]) {
+					nShort++
+					okNil := false
+					for _, g := range dominatingGuards(b) {
+						ng := normGuard(g)
+						if bo, ok := ng.Cond.(*ssa.BinOp); ok && bo.Op == token.EQL && ng.Pol {
+							if (bo.X == ssa.Value(fn.Params[0]) && isNilConst(bo.Y)) || (bo.Y == ssa.Value(fn.Params[0]) && isNilConst(bo.X)) {
+								okNil = true
+							}
+						}
+					}
+					if !okNil {
+						bad = p.Pos(ret.Pos())
+					}
+				}
+				continue
+			}
+			for _, sc := range b.Succs {
+				if !seen[sc] {
+					seen[sc] = true
+					work = append(work, sc)
+				}
+			}
+		}
+		if bad == "" {
+			r.OK(rule, n, "only nil takes the empty-root shortcut", p.Pos(fn.Pos()), fmt.Sprintf("%d return(s) of a document without an encoder call, each dominated by v == nil", nShort))
+		} else {
+			r.Bad(rule, n, "only nil takes the empty-root shortcut", bad, "a document is returned at "+bad+" without the value having been handed to an encoder, and not under the test v == nil: values other than nil (false, 0, \"\") are written as an empty root")
+		}
+	}
+}
+
+// ---- ELEM.always (C02, C03) ----------------------------------------------------------------------------------------------------------------
+
+// ruleElemAlways: the element encoder never returns success without having written something for the value it was given: every
+// path from its entry to `return nil` passes a write to the buffer, a recursive call, or a call of a function that writes. A loop
+// over the members of a list counts as writing only where the list is known to be non-empty; the zero-iteration path of such a
+// loop is how an empty list disappears from the output instead of becoming an empty element.
+func ruleElemAlways(p *Prog, r *Report, names []string) {
+	const rule = "ELEM.always"
+	for _, n := range names {
+		fn := p.Fn(n)
+		if fn == nil {
+			r.Anchor(rule, n)
+			continue
+		}
+		var sink *ssa.Parameter
+		for _, prm := range fn.Params {
+			if isOutputSinkType(prm.Type()) {
+				sink = prm
+			}
+		}
+		if sink == nil {
+			r.Unknown(rule, n, "output parameter", p.Pos(fn.Pos()), "no buffer / builder parameter found")
+			continue
+		}
+		wBlk := map[*ssa.BasicBlock]bool{}
+		eachInstr(fn, func(b *ssa.BasicBlock, in ssa.Instruction) {
+			c, ok := in.(ssa.CallInstruction)
+			if !ok {
+				return
+			}
+			for _, a := range c.Common().Args {
+				if a == ssa.Value(sink) {
+					wBlk[b] = true
+				}
+				if mi, ok := a.(*ssa.MakeInterface); ok && mi.X == ssa.Value(sink) {
+					wBlk[b] = true
+				}
+			}
+		})
+		cz := p.canonFor(fn)
+		// loops over a slice known to be non-empty run their body
+		nonEmptyLoop := func(h *ssa.BasicBlock) map[*ssa.BasicBlock]bool {
+			var rangeX ssa.Value
+			for _, in := range h.Instrs {
+				if bo, ok := in.(*ssa.BinOp); ok && bo.Op == token.LSS {
+					if c, ok := bo.Y.(*ssa.Call); ok && isBuiltin(c, "len") {
+						rangeX = c.Call.Args[0]
+					}
+				}
+			}
+			if rangeX == nil {
+				return nil
+			}
+			want := "len(" + cz.of(rangeX) + ")"
+			for _, g := range expandAndGuards(dominatingGuards(h)) {
+				ng := normGuard(g)
+				bo, ok := ng.Cond.(*ssa.BinOp)
+				if !ok || cz.of(bo.X) != want {
+					continue
+				}
+				k, isK := constInt(bo.Y)
+				if !isK {
+					continue
+				}
+				if (bo.Op == token.EQL && k == 0 && !ng.Pol) || (bo.Op == token.NEQ && k == 0 && ng.Pol) || (bo.Op == token.GTR && k == 0 && ng.Pol) || (bo.Op == token.GEQ && k == 1 && ng.Pol) {
+					return naturalLoop(h)
+				}
+			}
+			return nil
+		}
+		bad := ""
+		// path-sensitive in one respect: the outcome of the type tests of the encoded value (a path that took the list arm of one
+		// type switch cannot take the default arm of the next)
+		type pstate struct {
+			blk   *ssa.BasicBlock
+			known string // asserted type known to hold ("" = none)
+			excl  string // sorted list of excluded types
+		}
+		var valueP *ssa.Parameter
+		for _, prm := range fn.Params {
+			if isEmptyIface(prm.Type()) {
+				valueP = prm
+			}
+		}
+		isValue := func(v ssa.Value) bool {
+			for {
+				if v == ssa.Value(valueP) {
+					return true
+				}
+				ph, ok := v.(*ssa.Phi)
+				if !ok {
+					return false
+				}
+				// value = "" for nil etc.: a re-assigned value is a different value
+				_ = ph
+				return false
+			}
+		}
+		_ = isValue
+		seenS := map[pstate]bool{}
+		start := pstate{blk: fn.Blocks[0]}
+		seenS[start] = true
+		workS := []pstate{start}
+		for len(workS) > 0 && bad == "" {
+			st := workS[len(workS)-1]
+			workS = workS[:len(workS)-1]
+			b := st.blk
+			if wBlk[b] {
+				continue
+			}
+			if ret, ok := b.Instrs[len(b.Instrs)-1].(*ssa.Return); ok {
+				if len(ret.Results) == 1 && isNilConst(ret.Results[0]) {
+					bad = p.Pos(ret.Pos())
+				} else if len(ret.Results) == 1 {
+					if _, isC := ret.Results[0].(*ssa.Const); !isC {
+						nonNil := false
+						for _, g := range dominatingGuards(b) {
+							ng := normGuard(g)
+							if bo, ok := ng.Cond.(*ssa.BinOp); ok && (bo.Op == token.NEQ) == ng.Pol && (bo.Op == token.NEQ || bo.Op == token.EQL) {
+								if (bo.X == ret.Results[0] && isNilConst(bo.Y)) || (bo.Y == ret.Results[0] && isNilConst(bo.X)) {
+									nonNil = true
+								}
+							}
+						}
+						if !nonNil {
+							bad = p.Pos(ret.Pos())
+						}
+					}
+				}
+				continue
+			}
+			var body map[*ssa.BasicBlock]bool
+			isHeader := false
+			for _, pr := range b.Preds {
+				if b.Dominates(pr) {
+					isHeader = true
+				}
+			}
+			if isHeader {
+				body = nonEmptyLoop(b)
+			}
+			// a type test of the value at the end of this block?
+			var tt *ssa.TypeAssert
+			if ifi, ok := b.Instrs[len(b.Instrs)-1].(*ssa.If); ok {
+				if ex, ok := ifi.Cond.(*ssa.Extract); ok && ex.Index == 1 {
+					if ta, ok := ex.Tuple.(*ssa.TypeAssert); ok && isEmptyIface(ta.X.Type()) {
+						tt = ta
+					}
+				}
+			}
+			for si, sc := range b.Succs {
+				if body != nil && !body[sc] {
+					continue
+				}
+				nx := pstate{blk: sc, known: st.known, excl: st.excl}
+				if tt != nil {
+					// facts are kept per tested SSA value: "name=T;" (known type) and "name!T;" (excluded type)
+					X := tt.X.Name()
+					T := typeStr(tt.AssertedType)
+					knownT := ""
+					if i := strings.Index(st.known, ";"+X+"="); i >= 0 {
+						rest := st.known[i+len(X)+2:]
+						knownT = rest[:strings.Index(rest, ";")]
+					}
+					if si == 0 {
+						// only values of JSON shape are in the property's domain
+						if sl, isSl := tt.AssertedType.Underlying().(*types.Slice); isSl && !isEmptyIface(sl.Elem()) {
+							continue
+						}
+						if knownT != "" && knownT != T {
+							continue
+						}
+						if strings.Contains(st.excl, ";"+X+"!"+T+";") {
+							continue
+						}
+						if knownT == "" {
+							nx.known = st.known + ";" + X + "=" + T + ";"
+						}
+					} else {
+						if knownT == T {
+							continue
+						}
+						if !strings.Contains(st.excl, ";"+X+"!"+T+";") {
+							nx.excl = st.excl + ";" + X + "!" + T + ";"
+						}
+					}
+				}
+				if !seenS[nx] {
+					seenS[nx] = true
+					workS = append(workS, nx)
+				}
+			}
+		}
+		if bad == "" {
+			r.OK(rule, n, "something is written for every value", p.Pos(fn.Pos()), "no path returns success without a write to the output or a call that writes")
+		} else {
+			r.Bad(rule, n, "something is written for every value", bad, "the return at "+bad+" can be reached without anything having been written for the value (the zero-iteration path of a loop over a possibly empty list, or an arm that writes nothing): the value leaves no element in the document")
+		}
+	}
+}
